@@ -286,10 +286,27 @@ fn packagings(v: &IxView, idx: usize, salt: u64, cov: &mut Coverage, out: &mut V
         for k in &supp {
             i.accounts.push(Meta { pubkey: *k, is_signer: false, is_writable: true });
         }
+        let i_ro = {
+            // the same packaging with the supplemental arrays offered read-only: the swap may refuse them, but it must not
+            // go through with a different result (an array that cannot be written must not be taken for an absent one)
+            let mut x = i.clone();
+            let n = x.accounts.len();
+            for m in x.accounts[n - supp.len()..].iter_mut() {
+                m.is_writable = false;
+            }
+            x
+        };
         let (ok, code, f) = exec(v.pre, i);
         cov.probe("packaging_supplemental");
         if !ok || signature(&f, &wk, &pool, &trader, &[]) != base {
             out.push(viol("supplemental_changes_outcome", idx, format!("swap_v2 with supplemental tick arrays: ok={} code={:?}, result differs:{}", ok, code, diff_sig(&base, &signature(&f, &wk, &pool, &trader, &[]), &f, &wk))));
+            return;
+        }
+        let (ok, code, f) = exec(v.pre, i_ro);
+        cov.probe("packaging_supplemental_read_only");
+        cov.eval(format!("swap_v2|supplemental_read_only|ok={}", ok));
+        if ok && signature(&f, &wk, &pool, &trader, &[]) != base {
+            out.push(viol("supplemental_changes_outcome", idx, format!("swap_v2 with read-only supplemental tick arrays succeeds (code {:?}) with a different result:{}", code, diff_sig(&base, &signature(&f, &wk, &pool, &trader, &[]), &f, &wk))));
             return;
         }
     }
